@@ -30,4 +30,9 @@ theorem C12_cross_reject (pad : Pad) (e : Event) (k : Kind) (hk : k ≠ e.kind) 
 /-- the sixteen code constants are the model's pairwise distinct codes and every decoder checks its own -/
 theorem C12_src_codes : (SrcTie.codesOk && SrcTie.constUseOk) = true := by decide
 
+/-! non-vacuity (kernel-evaluated): the encoding of an ack event is rejected by the data decoder and vice versa -/
+example : decode .data (encode ⟨0, 0, 0⟩ (.ack 1 2)) = .err .wrongSize ∧
+    decode .ack (encode ⟨0, 0, 0⟩ (.data 1 2 0 [])) = .err .wrongSize ∧
+    decode .buttonReleased (encode ⟨0, 0, 0⟩ (.buttonPressed 1 2 3)) = .err .wrongEventType := by decide
+
 end Ross.Props
